@@ -86,13 +86,42 @@ def check(run, project):
     if ref is None:
         raise AnalysisError("C11: TPMS_PARAMS.encrypted not found")
     keyspace = sum(1 for c in L.all.values() if c.is_subclass_of(L.TPMS_PARAMS) and c is not L.TPMS_PARAMS)
-    check_memo(run, ref, keyspace, rule="A6")
-    memo = [d for d in ref.node.decorator_list if "cache" in norm(d)]
-    run.ob("A6", bool(memo), "the synthesised encrypted layout is memoised (one class object per parameter area)",
+    carriers = memo_carriers(cg, ref)
+    for c in carriers or ():
+        check_memo(run, c, keyspace, rule="A6")
+    run.ob("A6", bool(carriers), "the synthesised encrypted layout is memoised (one class object per parameter area)",
            "encrypted() is no longer memoised: decoder and object builder synthesise two different classes", module=ref.mod,
            node=ref.node, func=ref.qual, construct="encrypted() memoisation")
     run.floor("A1", 100)
     run.floor("A2", 500)
+
+
+def memo_carriers(cg, ref, depth=0):
+    """the memoised function(s) every result of `ref` comes from: ref itself if it carries a memoising decorator, else - if all
+    its returns hand back a parameter or the result of a memoised function of the same module applied to parameters only -
+    those functions; None if some result is synthesised outside a memo"""
+    from .c12 import MEMO
+    fn = ref.node
+    if any(norm(d.func if isinstance(d, ast.Call) else d) in MEMO for d in fn.decorator_list):
+        return [ref]
+    if depth > 2:
+        return None
+    params = {a.arg for a in fn.args.args}
+    out = []
+    rets = [n for n in ast.walk(fn) if isinstance(n, ast.Return)]
+    for r in rets:
+        v = r.value
+        if isinstance(v, ast.Name) and v.id in params:
+            continue
+        if isinstance(v, ast.Call) and isinstance(v.func, ast.Name) and not v.keywords and \
+                all(isinstance(a, ast.Name) and a.id in params for a in v.args):
+            callee = cg.get(ref.mod.name, v.func.id)
+            sub = memo_carriers(cg, callee, depth + 1) if callee is not None else None
+            if sub:
+                out += sub
+                continue
+        return None
+    return out or None
 
 
 def label(p):
@@ -289,12 +318,52 @@ def a4(run, project, mod, roles):
     ie = pm.functions().get("TPMS_PARAMS.is_encrypted_params")
     if ie is None:
         raise AnalysisError("C11: is_encrypted_params not found")
-    x = ie.args.args[0].arg
-    first = f"list({x}.values())[0]"
-    D, N, F = f"isinstance({x}, dict)", f"truthy {x}", f"isinstance({first}, dict)"
-    spec = [({D: False}, f"hasattr({x}, '_encrypted') and {x}._encrypted"), ({N: False}, "False"), ({F: False}, "False")]
-    decided(run, "A4", pm, ie, spec, f"list({first}.keys()) == list(TPM2B_ENCRYPTED_PARAM.__annotations__.keys())", "is_encrypted_params",
-            "encrypted parameter areas must be recognised by the field names of TPM2B_ENCRYPTED_PARAM in first position")
+    # folded over its whole domain in the decoder: the dict form of every parameter area of L, plain and with the encrypted
+    # first parameter, the empty dict, and objects with / without the _encrypted flag - the text of the function is not read
+    from ..minieval import Interp, Raised, TypeRef
+    from ..specmodel import ClassV, ListT
+    L = ctx.layout(project)
+
+    def shape(t, depth=0):
+        if isinstance(t, ListT):
+            return []
+        if isinstance(t, ClassV) and L.is_dataclass(t) and depth < 2:
+            return {fn_: shape(ft, depth + 1) for fn_, ft in L.fields(t)}
+        return 0
+    enc_shape = {fn_: shape(ft, 1) for fn_, ft in L.fields(L.TPM2B_ENCRYPTED_PARAM)}
+    cases = [("{}", {}, False), ("object with _encrypted=True", TypeRef("obj", attrs={"_encrypted": True}), True),
+             ("object with _encrypted=False", TypeRef("obj", attrs={"_encrypted": False}), False),
+             ("object without _encrypted", TypeRef("obj"), False)]
+    for k, c in sorted(L.all.items()):
+        if not (isinstance(c, ClassV) and c.is_subclass_of(L.TPMS_PARAMS)) or c is L.TPMS_PARAMS:
+            continue
+        fl = L.fields(c)
+        if not fl:
+            continue
+        plain = {fn_: shape(ft) for fn_, ft in fl}
+        cases.append((f"{k} plain", plain, plain[fl[0][0]] == enc_shape and isinstance(plain[fl[0][0]], dict)))
+        if isinstance(fl[0][1], ClassV) and fl[0][1].name.startswith("TPM2B"):
+            enc = dict(plain)
+            enc[fl[0][0]] = dict(enc_shape)
+            cases.append((f"{k} encrypted", enc, True))
+    g = {"TPM2B_ENCRYPTED_PARAM": TypeRef("TPM2B_ENCRYPTED_PARAM", annotations={fn_: TypeRef("?") for fn_, _ in L.fields(L.TPM2B_ENCRYPTED_PARAM)}),
+         "dict": TypeRef("dict")}
+    n_ok = 0
+    for name_, arg, want in cases:
+        try:
+            got = Interp(g, module_tree=pm.tree).call(ie, [arg])
+        except Raised as r:
+            got = f"raises {r.cls}"
+        ok = (bool(got) == want) if not isinstance(got, str) else False
+        n_ok += ok
+        if not ok:
+            run.ob("A4", False, f"is_encrypted_params({name_})", "encrypted parameter areas must be recognised by the field names of "
+                   f"TPM2B_ENCRYPTED_PARAM in first position (objects: by their _encrypted flag): is_encrypted_params({name_}) gives "
+                   f"{got!r}, required {want}", module=pm, node=ie, func="TPMS_PARAMS.is_encrypted_params", construct="is_encrypted_params")
+    run.ob("A4", n_ok == len(cases), f"is_encrypted_params is right on all {len(cases)} parameter-area shapes of L",
+           f"{len(cases) - n_ok} of {len(cases)} shapes are classified wrongly", module=pm, node=ie, func="TPMS_PARAMS.is_encrypted_params",
+           construct="is_encrypted_params")
+    run.require(len(cases) >= 200, f"C11: only {len(cases)} parameter-area shapes for is_encrypted_params")
     # ---- events_to_obj ignores info events only, and converts the root node
     eps = paths.summarise(mod, e2o)
     ok = len(eps) == 1 and eps[0].end == "return" and match(
